@@ -495,3 +495,44 @@ Proof.
   unfold simulate_outcome. destruct (construct d) as [ps| |]; split; try discriminate; try reflexivity.
   destruct (d_visit_type d); [|discriminate]. intros H. now apply run_never_refuses in H.
 Qed.
+
+(** exact characterisation of the accepted designs on which [_run] completes *)
+Definition spacing_ok (opts : list (Z * Q)) (dflt : Q) (vt : vtype) (ps : dict) : Prop :=
+  match vt with
+  | VtRandom => exists ms, min_spacing_of dflt ps = Some ms /\ precision_of opts ms <> None
+  | VtDataframe => precision_of opts dflt <> None
+  | VtOther => False
+  end.
+
+Definition runnable (opts : list (Z * Q)) (dflt : Q) (m : model_shape) (vt : vtype) (feats : featsv) (ps : dict) : Prop :=
+  exists n, lookup "patient_number" ps = Some (VInt n) /\ (2 <= n)%Z /\
+            existsb is_null (frame_ids ps) = false /\ existsb is_intid (frame_ids ps) = false /\
+            source_dimension m <> 0%nat /\ n_features feats = dimension m /\
+            nodupb (feature_names feats) = true /\ spacing_ok opts dflt vt ps.
+
+Lemma run_ok_iff opts dflt m vt feats ps :
+  run_outcome opts dflt m vt feats ps = Ok tt <-> runnable opts dflt m vt feats ps.
+Proof.
+  unfold run_outcome, runnable. split.
+  - destruct (lookup "patient_number" ps) as [[n| | | | |]|]; try discriminate.
+    destruct (existsb is_null (frame_ids ps)) eqn:E1; [discriminate|].
+    destruct (source_dimension m =? 0)%nat eqn:E2; [discriminate|].
+    destruct (n_features feats =? dimension m)%nat eqn:E3; [|discriminate]. simpl negb. cbv iota.
+    destruct (existsb is_intid (frame_ids ps)) eqn:E4; [discriminate|].
+    destruct (n <=? 0)%Z eqn:E5; [discriminate|].
+    destruct (n =? 1)%Z eqn:E6; [discriminate|].
+    destruct (nodupb (feature_names feats)) eqn:E7; [|discriminate]. simpl negb. cbv iota.
+    intros H. exists n. apply Z.leb_gt in E5. apply Z.eqb_neq in E6. apply Nat.eqb_neq in E2. apply Nat.eqb_eq in E3.
+    repeat split; try assumption; try lia.
+    unfold spacing_ok. destruct vt; [| |discriminate].
+    + destruct (min_spacing_of dflt ps) as [ms|]; [|discriminate]. exists ms. split; [reflexivity|].
+      destruct (precision_of opts ms); [discriminate | discriminate].
+    + destruct (precision_of opts dflt); [discriminate | discriminate].
+  - intros (n & E & Hn & E1 & E4 & E2 & E3 & E7 & Hs). rewrite E, E1, E4, E7.
+    apply Nat.eqb_neq in E2. apply Nat.eqb_eq in E3. rewrite E2, E3. simpl negb. cbv iota.
+    assert (E5 : (n <=? 0)%Z = false) by (apply Z.leb_gt; lia).
+    assert (E6 : (n =? 1)%Z = false) by (apply Z.eqb_neq; lia). rewrite E5, E6.
+    unfold spacing_ok in Hs. destruct vt; [| |contradiction].
+    + destruct Hs as (ms & -> & Hp). destruct (precision_of opts ms); [reflexivity | contradiction].
+    + destruct (precision_of opts dflt); [reflexivity | contradiction].
+Qed.
